@@ -196,10 +196,10 @@ def check(c, tier, replay):
         part = scns[i:i + 3000]
         mism, tp = run_and_validate(c, drv, part, 'sched%d' % i)
         c.cov['conformance_mismatches'] += len(mism)
-        if first:
+        handle(c, drv, part, mism, 'sched')
+        if first and not c.violations:
             binding_selftest(c, tp)
             first = False
-        handle(c, drv, part, mism, 'sched')
     c.cov['distinct_nontrivial'] = len({json.dumps([s['sched'], s['procs'], s['n'], s['bl'], s['t0']]) for s in scns if 0 in s['sched']})
     c.cov['rule'] = ('schedule = sequence of "goroutine i moves to its next la.*/mb.* yield point" / clock tick forced on the real '
                      'BucketLeapArray; %d from TLC (simulation of WindowConc + counterexamples of its two spec-level mutants), rest seeded '
